@@ -276,7 +276,9 @@ Section Resolve.
       DCustom (rs_name s) (smem "Serialize" cs) (smem "Deserialize" cs) (custom_params (rs_name s))
     else
       let fs := live_fields f (rs_fields s) in
-      match rs_kind s with
+      (* a container attribute the model does not interpret (deny_unknown_fields, default, transparent, tag, ...) makes the
+         declaration opaque: it then conforms to no specification table *)
+      match (match rs_cattrs s with [] => rs_kind s | _ :: _ => KPlain end) with
       | KIdx off => DStruct true (rs_ser s) (rs_de s) (idx_fields off 0 fs)
       | KTxt ra => DStruct false (rs_ser s) (rs_de s) (map (txt_field ra) fs)
       | KPlain => DOpaque
@@ -291,6 +293,7 @@ Section Resolve.
         let ia := match find_match (m ++ "::From<" ++ sh ++ "> for &str") all with Some a => a | None => [] end in
         let ta := match find_match (m ++ "::TryFrom<&str> for " ++ sh) all with Some a => a | None => [] end in
         if into_shape_ok ia && tryfrom_shape_ok ta && String.eqb into "&str" && String.eqb tf "&str"
+           && forallb (fun v => existsb (fun p => String.eqb (short_of (fst p)) v || String.eqb (fst p) v) (into_arms ia)) variants
         then [(name, DStrEnum ser de (into_arms ia) (tryfrom_arms ta))]
         else [(name, DCustom ("malformed string enum " ++ name) false false [])]
     | RReprEnum name repr ser de variants =>
